@@ -116,6 +116,21 @@ def evaluate(case, out):
                 out.skip("total-within-rounding-of-Nt")
         else:
             out.expect(a == b, "truncation-changes-last-entry-iid", lambda: (a, b, k))
+    # (b') the truncation relation at every cut point (the boundary draw at which the null becomes certain is a single index)
+    try:
+        for kk in range(1, len(x)):
+            if kk == k:
+                continue
+            hkk = hist(x[:kk])
+            if not out.expect(all(_same(hkk[j], hx[j]) for j in range(kk - 1)), "truncation-changes-earlier-entries", lambda: (kk, hkk[: kk - 1][-3:], hx[: kk - 1][-3:])):
+                break
+            a2, b2 = hkk[kk - 1], hx[kk - 1]
+            if not (math.isnan(a2) or math.isnan(b2)):
+                if not out.expect(a2 <= b2, "truncation-raises-last-entry", lambda: (a2, b2, kk)):
+                    break
+    except Exception as e:  # noqa
+        out.lib_exception("test", e)
+        return
     # (c) estimator / bet sequences
     xa, xa2 = nonneg.natural(x), nonneg.natural(x2)
     for name, fn in (("estim", test.estim), ("bet", test.bet)):
